@@ -72,7 +72,7 @@ func describe(tr string, gp gridPoint, variant string, p *plan) caseDesc {
 func TestC13MemGrid(t *testing.T) {
 	env := vrun.LoadEnv()
 	grid := gridPoints(env.Thorough())
-	variants := env.Pick(6, 8)
+	variants := env.Pick(6, 16)
 	meta := vrun.Meta{
 		Property: "C13", Workload: "TestC13MemGrid", Total: len(grid) * variants, Exhaustive: env.Thorough(),
 		Rule: "case = (grid point, variant). Grid = every mode {off, per-message, context-takeover} x level 0..9 x windowBits " +
